@@ -117,11 +117,58 @@ def outer(x):
 '''
 
 
+RUNTIME_RECURSION_SRC = '''
+from tawazi import xn, dag, Resource
+import twzmc.harness as H
+
+@xn(resource=Resource.{caller_res})
+def level(*a, **k):
+    # finite run-time recursion: the node calls the DAG it belongs to (another execution of the SAME DAG object)
+    H.node_body("level", a, k)
+    n = a[0]
+    return 0 if n == 0 else 1 + countdown(n - 1)
+
+@xn(resource=Resource.{other_res})
+def other(*a, **k):
+    return H.node_body("other", a, k)
+
+@dag(max_concurrency={mc})
+def countdown(n):
+    o = other(n)
+    return level(n)
+'''
+
+
+def runtime_recursion_case(acc, c):
+    """Executions of one DAG object may overlap (a node calls its own DAG with a smaller argument): each has its own workers."""
+    from .. import harness as H
+    from ..build import exec_source
+    for caller_res in ("thread", "async_thread"):
+        for other_res in ("thread", "main_thread"):
+            for mc in (1, 2):
+                for depth in (1, 2, 3):
+                    src = RUNTIME_RECURSION_SRC.format(caller_res=caller_res, other_res=other_res, mc=mc)
+                    d = exec_source(src)["countdown"]
+                    res = H.run_controlled(lambda: d(depth), is_async=False, watchdog=8.0)
+                    acc.evaluations += 1
+                    acc.mark_nontrivial(("runtime_recursion", caller_res, other_res, mc, depth))
+                    case = dict(c, recursion=True, caller_res=caller_res, other_res=other_res, mc=mc, depth=depth)
+                    if res.outcome in ("hang", "spin") or res.forced:
+                        acc.violation(V("hang", f"a {caller_res} node that calls its own DAG at run time (depth {depth}, max_concurrency={mc}) does not terminate",
+                                        nested=True), case, (), res.trace, src)
+                        acc.stall(res)
+                    elif res.outcome != "return":
+                        acc.violation(V("internal_error", f"run-time recursion raised {res.exc!r}", exc=type(res.exc).__name__, nested=True), case, (), res.trace, src)
+                    elif res.value != depth:
+                        acc.violation(V("wrong_value", f"run-time recursion of depth {depth} returned {res.value!r}", nested=True), case, (), res.trace, src)
+
+
 def runtime_nested_case(acc, c):
     """A node function may itself run a DAG at run time; the outer call still has to terminate (no pool starvation)."""
     from .. import harness as H
     from ..build import exec_source
     acc.cases += 1
+    runtime_recursion_case(acc, c)
     # (a main-thread caller cannot run a sync DAG: the scheduler itself runs inside asyncio.run on that thread - excluded)
     for caller_res in ("thread", "async_thread"):
         for inner_res in ("thread", "async_thread", "main_thread"):
